@@ -341,6 +341,13 @@ class ContGen:
             if withmeta and rng.random() < 0.85:
                 p = rng.choice(withmeta)
                 name = rng.choice(list(ref.shadow[p]))
+                if rng.random() < 0.25:
+                    # the name of an ANCESTOR schema of an attached object: deletion is by explicit schema only (KeyError
+                    # unless an object of exactly that schema is attached as well)
+                    _, ver, _, _ = ref.shadow[p][name]
+                    anc = [a.name for a in schemas.parent_path(name, ver)[:-1]]
+                    if anc:
+                        name = rng.choice(anc)
             else:
                 p, name = rng.choice(anyn), rng.choice(self.att)[0]
             return ["delmeta", p, name, via]
